@@ -4,11 +4,12 @@ import NauyacaVerif.Fs.UploadProof
 
 Model: `Fs.handleUpload` (`Fs/Upload.lean`) mirrors `FileUploadHandler.handle_upload /
 _handle_delete / _is_safe_path`: the response status and the list of filesystem effects
-(`mkdir p | writeTemp p bytes ok | rename src dst ok | unlink p ok`).  The filesystem is the
-abstract `OS` (`resolve` = `Path.resolve()`, `kind` = what `stat` sees) — every theorem holds for
-EVERY such `OS`, every configuration, every request and every combination of injected storage
-faults (`Faults`: the n-th directory creation fails, the write fails after k bytes, the rename
-fails, the unlink fails).  `Files` is the map from paths to the bytes of the regular file there;
+(`mkdir p | writeTemp p bytes ok | rename src dst ok | unlink p ok | rmdir p`).  The filesystem is
+the abstract `UOS` (`resolve` = `Path.resolve()`, `kind` = what `stat` sees, `lexists` = what
+`lstat` sees) — every theorem holds for EVERY such OS, every configuration, every request and
+every combination of injected storage faults (`Faults`: the n-th directory creation fails,
+creating the temporary file fails, the write fails after k bytes, the rename fails, the unlink
+fails).  `Files` is the map from paths to the bytes of the regular file there;
 `applyAll` replays an effect list on it.
 
 Assumed, not proved (hence level "partial"): the kernel's side of the contract — an operation on a
@@ -20,19 +21,20 @@ namespace NauyacaVerif.C14
 open Fs
 
 /-- the effects an upload or delete whose path resolves to `t` may have: remove `t` (delete), or —
-    only when `t` is not the upload directory itself — create missing ancestors of `t` below the
-    upload directory, write the sibling temporary file, rename it onto `t`, remove it -/
+    only when `t` is not the upload directory itself — create (and, on failure, remove again)
+    missing ancestors of `t` below the upload directory, write the sibling temporary file, rename
+    it onto `t`, remove it -/
 def Allowed (c : UCfg) (t : Path) (e : Effect) : Prop :=
   (∃ ok, e = .unlink t ok) ∨
   (t ≠ c.dir ∧
-    ((∃ q, e = .mkdir (c.dir ++ q) ∧ q ≠ [] ∧ c.dir ++ q <+: t.dropLast) ∨
+    ((∃ q, (e = .mkdir (c.dir ++ q) ∨ e = .rmdir (c.dir ++ q)) ∧ q ≠ [] ∧ c.dir ++ q <+: t.dropLast) ∨
      (∃ b ok, e = .writeTemp (tempPath c t) b ok) ∨
      (∃ ok, e = .rename (tempPath c t) t ok) ∨
      (∃ ok, e = .unlink (tempPath c t) ok)))
 
 /-- every effect concerns the one target the path resolves to, and that target lies inside the
     upload directory -/
-theorem upload_effects (os : OS) (c : UCfg) (f : Faults) (r : UReq) :
+theorem upload_effects (os : UOS) (c : UCfg) (f : Faults) (r : UReq) :
     ∀ e ∈ (handleUpload os c f r).2,
       ∃ t, os.resolve (c.dir ++ r.comps) = some t ∧ inside c.dir t = true ∧ Allowed c t e := by
   intro e he
@@ -45,30 +47,49 @@ theorem upload_effects (os : OS) (c : UCfg) (f : Faults) (r : UReq) :
     · rw [h] at he; simp at he; exact ⟨t, hres, hin, Or.inl ⟨false, he⟩⟩
   · rw [heq] at he
     refine ⟨t, hres, hin, Or.inr ⟨hne, ?_⟩⟩
-    have hmk : ∀ e ∈ (mkParents os c f t).2, ∃ q, e = .mkdir (c.dir ++ q) ∧ q ≠ [] ∧ c.dir ++ q <+: t.dropLast := by
-      intro e he
-      obtain ⟨q, rfl, hq1, hq2⟩ := mkdirWalk_shape os c f _ _ _ e he
+    have hpath : ∀ p ∈ (mkParents os c f t).2, ∃ q, p = c.dir ++ q ∧ q ≠ [] ∧ c.dir ++ q <+: t.dropLast := by
+      intro p hp
+      obtain ⟨q, rfl, hq1, hq2⟩ := mkdirWalk_shape os.toOS c f _ _ _ p hp
       refine ⟨q, rfl, hq1, ?_⟩
       have hpre : c.dir <+: t.dropLast := by
         simpa [inside, List.isPrefixOf_iff_prefix] using inside_dropLast hin hne
       have e1 : c.dir ++ t.dropLast.drop c.dir.length = t.dropLast := List.prefix_iff_eq_append.mp hpre
       rw [← e1]
       exact (List.prefix_append_right_inj _).mpr hq2
-    rcases store_cases os c f t (r.content.take r.size) with h | ⟨k, h⟩ | h | h
-    · rw [h] at he; exact Or.inl (hmk e he)
+    have hmk : ∀ e ∈ made os c f t, ∃ q, (e = .mkdir (c.dir ++ q) ∨ e = .rmdir (c.dir ++ q)) ∧ q ≠ [] ∧ c.dir ++ q <+: t.dropLast := by
+      intro e he
+      simp only [made, List.mem_map] at he
+      obtain ⟨p, hp, rfl⟩ := he
+      obtain ⟨q, rfl, h1, h2⟩ := hpath p hp
+      exact ⟨q, Or.inl rfl, h1, h2⟩
+    have hun : ∀ e ∈ undo os c f t, ∃ q, (e = .mkdir (c.dir ++ q) ∨ e = .rmdir (c.dir ++ q)) ∧ q ≠ [] ∧ c.dir ++ q <+: t.dropLast := by
+      intro e he
+      simp only [undo, List.mem_map, List.mem_reverse] at he
+      obtain ⟨p, hp, rfl⟩ := he
+      obtain ⟨q, rfl, h1, h2⟩ := hpath p hp
+      exact ⟨q, Or.inr rfl, h1, h2⟩
+    rcases store_cases os c f t (r.content.take r.size) with h | h | ⟨k, h, _⟩ | ⟨h, _⟩ | ⟨h, _⟩
+    · rw [h] at he; simp at he
+    · rw [h] at he
+      simp only [List.mem_append] at he
+      rcases he with he | he
+      · exact Or.inl (hmk e he)
+      · exact Or.inl (hun e he)
     · rw [h] at he
       simp only [List.mem_append, List.mem_cons, List.not_mem_nil, or_false] at he
-      rcases he with he | rfl | rfl
+      rcases he with (he | rfl | rfl) | he
       · exact Or.inl (hmk e he)
       · exact Or.inr (Or.inl ⟨_, _, rfl⟩)
       · exact Or.inr (Or.inr (Or.inr ⟨_, rfl⟩))
+      · exact Or.inl (hun e he)
     · rw [h] at he
       simp only [List.mem_append, List.mem_cons, List.not_mem_nil, or_false] at he
-      rcases he with he | rfl | rfl | rfl
+      rcases he with (he | rfl | rfl | rfl) | he
       · exact Or.inl (hmk e he)
       · exact Or.inr (Or.inl ⟨_, _, rfl⟩)
       · exact Or.inr (Or.inr (Or.inl ⟨_, rfl⟩))
       · exact Or.inr (Or.inr (Or.inr ⟨_, rfl⟩))
+      · exact Or.inl (hun e he)
     · rw [h] at he
       simp only [List.mem_append, List.mem_cons, List.not_mem_nil, or_false] at he
       rcases he with he | rfl | rfl
@@ -78,7 +99,7 @@ theorem upload_effects (os : OS) (c : UCfg) (f : Faults) (r : UReq) :
 
 /-- under the OS contract "`resolve` is idempotent" the target is its own resolution: no symlink is
     left on the way to it -/
-theorem upload_target_canonical (os : OS) (c : UCfg) (f : Faults) (r : UReq)
+theorem upload_target_canonical (os : UOS) (c : UCfg) (f : Faults) (r : UReq)
     (hidem : ∀ p q, os.resolve p = some q → os.resolve q = some q)
     (e : Effect) (he : e ∈ (handleUpload os c f r).2) :
     ∃ t, os.resolve t = some t ∧ inside c.dir t = true ∧ Allowed c t e := by
@@ -87,14 +108,16 @@ theorem upload_target_canonical (os : OS) (c : UCfg) (f : Faults) (r : UReq)
 
 /-- every path any effect touches lies inside the upload directory (component-wise prefix: a
     sibling such as `uploads-evil` is outside) -/
-theorem upload_confined (os : OS) (c : UCfg) (f : Faults) (r : UReq) :
+theorem upload_confined (os : UOS) (c : UCfg) (f : Faults) (r : UReq) :
     ∀ e ∈ (handleUpload os c f r).2, ∀ p ∈ e.paths, inside c.dir p = true := by
   intro e he p hp
   obtain ⟨t, _, hin, ha⟩ := upload_effects os c f r e he
   rcases ha with ⟨ok, rfl⟩ | ⟨hne, ha⟩
   · simp [Effect.paths] at hp; subst hp; exact hin
   · have htp := inside_tempPath hin hne
-    rcases ha with ⟨q, rfl, _, _⟩ | ⟨b, ok, rfl⟩ | ⟨ok, rfl⟩ | ⟨ok, rfl⟩
+    rcases ha with ⟨q, rfl | rfl, _, _⟩ | ⟨b, ok, rfl⟩ | ⟨ok, rfl⟩ | ⟨ok, rfl⟩
+    · simp [Effect.paths] at hp; subst hp
+      simp [inside, List.isPrefixOf_iff_prefix]
     · simp [Effect.paths] at hp; subst hp
       simp [inside, List.isPrefixOf_iff_prefix]
     · simp [Effect.paths] at hp; subst hp; exact htp
@@ -103,30 +126,36 @@ theorem upload_confined (os : OS) (c : UCfg) (f : Faults) (r : UReq) :
 
 /-- what a completed write put into the file is exactly the declared number of bytes that
     followed the request line (never the whole buffer) -/
-theorem upload_content (os : OS) (c : UCfg) (f : Faults) (r : UReq) (p : Path) (b : Bytes)
+theorem upload_content (os : UOS) (c : UCfg) (f : Faults) (r : UReq) (p : Path) (b : Bytes)
     (h : Effect.writeTemp p b true ∈ (handleUpload os c f r).2) : b = r.content.take r.size := by
   rcases handleUpload_cases os c f r with ⟨h0, _⟩ | ⟨t, _, _, _, _, heq⟩ | ⟨t, _, _, _, _, _, heq⟩
   · rw [h0] at h; simp at h
   · rw [heq] at h
     rcases deleteAt_cases os c f t with ⟨h0, _⟩ | ⟨_, _, h0 | h0⟩ <;> rw [h0] at h <;> simp at h
   · rw [heq] at h
-    have hmk : Effect.writeTemp p b true ∉ (mkParents os c f t).2 := by
-      intro hm
-      obtain ⟨q, hq⟩ := mkParents_only_mkdir os c f t _ hm
-      cases hq
-    rcases store_cases os c f t (r.content.take r.size) with h0 | ⟨k, h0⟩ | h0 | h0 <;> rw [h0] at h
-    · exact absurd h hmk
+    have hmk : Effect.writeTemp p b true ∉ made os c f t := by
+      intro hm; have := made_dirOps os c f t _ hm; simp [Effect.isDirOp] at this
+    have hun : Effect.writeTemp p b true ∉ undo os c f t := by
+      intro hm; have := undo_dirOps os c f t _ hm; simp [Effect.isDirOp] at this
+    rcases store_cases os c f t (r.content.take r.size) with h0 | h0 | ⟨k, h0, _⟩ | ⟨h0, _⟩ | ⟨h0, _⟩ <;> rw [h0] at h
+    · simp at h
+    · simp only [List.mem_append] at h
+      rcases h with h | h
+      · exact absurd h hmk
+      · exact absurd h hun
     · simp only [List.mem_append, List.mem_cons, List.not_mem_nil, or_false] at h
-      rcases h with h | h | h
+      rcases h with (h | h | h) | h
       · exact absurd h hmk
       · simp at h
       · cases h
+      · exact absurd h hun
     · simp only [List.mem_append, List.mem_cons, List.not_mem_nil, or_false] at h
-      rcases h with h | h | h | h
+      rcases h with (h | h | h | h) | h
       · exact absurd h hmk
       · simp at h; exact h.2
       · cases h
       · cases h
+      · exact absurd h hun
     · simp only [List.mem_append, List.mem_cons, List.not_mem_nil, or_false] at h
       rcases h with h | h | h
       · exact absurd h hmk
@@ -136,7 +165,7 @@ theorem upload_content (os : OS) (c : UCfg) (f : Faults) (r : UReq) (p : Path) (
 /-- anything at all happens to the filesystem only for a request that passed every guard: valid
     token (when tokens are configured; an empty token never counts), size within the limit,
     media type allowed and, for zero-byte requests, deletion enabled -/
-theorem upload_guarded (os : OS) (c : UCfg) (f : Faults) (r : UReq) (h : (handleUpload os c f r).2 ≠ []) :
+theorem upload_guarded (os : UOS) (c : UCfg) (f : Faults) (r : UReq) (h : (handleUpload os c f r).2 ≠ []) :
     authOk c r = true ∧ r.size ≤ c.maxSize ∧ typeOk c r = true ∧ (r.size = 0 → c.enableDelete = true) := by
   rcases handleUpload_cases os c f r with ⟨h0, _⟩ | ⟨t, hg, _, hd, _, _⟩ | ⟨t, hg, hs, _, _, _, _⟩
   · exact absurd h0 h
@@ -144,26 +173,31 @@ theorem upload_guarded (os : OS) (c : UCfg) (f : Faults) (r : UReq) (h : (handle
   · exact ⟨hg.1, hg.2.1, hg.2.2, fun h0 => absurd h0 hs⟩
 
 /-- … and the same guards stand behind every success response -/
-theorem success_guarded (os : OS) (c : UCfg) (f : Faults) (r : UReq) (h : (handleUpload os c f r).1 = .s20) :
+theorem success_guarded (os : UOS) (c : UCfg) (f : Faults) (r : UReq) (h : (handleUpload os c f r).1 = .s20) :
     authOk c r = true ∧ r.size ≤ c.maxSize ∧ typeOk c r = true ∧ (r.size = 0 → c.enableDelete = true) := by
   rcases handleUpload_cases os c f r with ⟨_, h0⟩ | ⟨t, hg, _, hd, _, _⟩ | ⟨t, hg, hs, _, _, _, _⟩
   · exact absurd h h0
   · exact ⟨hg.1, hg.2.1, hg.2.2, fun _ => hd⟩
   · exact ⟨hg.1, hg.2.1, hg.2.2, fun h0 => absurd h0 hs⟩
 
-/-- the temporary name next to the target is not in use (the handler picks `.NAME.PID.upload`) -/
-def TempFree (os : OS) (c : UCfg) (r : UReq) (fs : Files) : Prop :=
-  ∀ t, os.resolve (c.dir ++ r.comps) = some t → fs.get (tempPath c t) = none
+/-- the file map describes the same filesystem as the OS: a path that holds a file has an entry -/
+def Consistent (os : UOS) (fs : Files) : Prop := ∀ p b, fs.get p = some b → os.lexists p = true
+
+theorem temp_free {os : UOS} {fs : Files} (hc : Consistent os fs) {p : Path} (h : os.lexists p = false) : fs.get p = none := by
+  cases hg : fs.get p with
+  | none => rfl
+  | some b => rw [hc p b hg] at h; cases h
 
 /-- every request answered with a non-success status — refused by a guard, bad path, missing
-    resource, a layout that makes storing impossible, or a storage fault at ANY point (the n-th
-    mkdir, the write after k bytes, the rename, the unlink) — leaves every existing file
-    byte-for-byte unchanged and creates no file -/
-theorem nonsuccess_no_change (os : OS) (c : UCfg) (f : Faults) (r : UReq) (fs : Files)
-    (htmp : TempFree os c r fs) (hfail : (handleUpload os c f r).1 ≠ .s20) :
+    resource, a layout that makes storing impossible (including an existing entry under the
+    temporary name: it is never opened), or a storage fault at ANY point (the n-th mkdir, creating
+    the temporary file, the write after k bytes, the rename, the unlink) — leaves every existing
+    file byte-for-byte unchanged and creates no file -/
+theorem nonsuccess_no_change (os : UOS) (c : UCfg) (f : Faults) (r : UReq) (fs : Files)
+    (hc : Consistent os fs) (hfail : (handleUpload os c f r).1 ≠ .s20) :
     ∀ p, (applyAll fs (handleUpload os c f r).2).get p = fs.get p := by
   intro p
-  rcases handleUpload_cases os c f r with ⟨h0, _⟩ | ⟨t, _, _, _, _, heq⟩ | ⟨t, _, _, hres, _, _, heq⟩
+  rcases handleUpload_cases os c f r with ⟨h0, _⟩ | ⟨t, _, _, _, _, heq⟩ | ⟨t, _, _, _, _, _, heq⟩
   · rw [h0]; rfl
   · rw [heq] at hfail ⊢
     rcases deleteAt_cases os c f t with ⟨h0, _⟩ | ⟨_, _, h0 | h0⟩
@@ -171,23 +205,46 @@ theorem nonsuccess_no_change (os : OS) (c : UCfg) (f : Faults) (r : UReq) (fs : 
     · rw [h0] at hfail; simp at hfail
     · rw [h0]; rfl
   · rw [heq] at hfail ⊢
-    have hmk := mkParents_only_mkdir os c f t
-    have ht := htmp t hres
-    rcases store_cases os c f t (r.content.take r.size) with h0 | ⟨k, h0⟩ | h0 | h0
-    · rw [h0, applyAll_mkdirs fs _ hmk]
-    · rw [h0, applyAll_append, applyAll_mkdirs fs _ hmk]
+    have hmk := made_dirOps os c f t
+    have hun := undo_dirOps os c f t
+    rcases store_cases os c f t (r.content.take r.size) with h0 | h0 | ⟨k, h0, hl⟩ | ⟨h0, hl⟩ | ⟨h0, _⟩
+    · rw [h0]; rfl
+    · rw [h0, applyAll_append, applyAll_dirOps fs _ hmk, applyAll_dirOps fs _ hun]
+    · rw [h0, applyAll_append, applyAll_append, applyAll_dirOps fs _ hmk, applyAll_dirOps _ _ hun]
       simp only [applyAll, List.foldl_cons, List.foldl_nil, applyEffect, if_true]
-      exact get_del_set fs _ _ p ht
-    · rw [h0, applyAll_append, applyAll_mkdirs fs _ hmk]
+      exact get_del_set fs _ _ p (temp_free hc hl)
+    · rw [h0, applyAll_append, applyAll_append, applyAll_dirOps fs _ hmk, applyAll_dirOps _ _ hun]
       simp only [applyAll, List.foldl_cons, List.foldl_nil, applyEffect, if_true]
       simp only [Bool.false_eq_true, if_false]
-      exact get_del_set fs _ _ p ht
+      exact get_del_set fs _ _ p (temp_free hc hl)
+    · rw [h0] at hfail; simp at hfail
+
+/-- … and no directory either: whatever was created for the attempt is removed again -/
+theorem nonsuccess_no_dirs (os : UOS) (c : UCfg) (f : Faults) (r : UReq)
+    (hfail : (handleUpload os c f r).1 ≠ .s20) : dirsAfter [] (handleUpload os c f r).2 = [] := by
+  rcases handleUpload_cases os c f r with ⟨h0, _⟩ | ⟨t, _, _, _, _, heq⟩ | ⟨t, _, _, _, _, _, heq⟩
+  · rw [h0]; rfl
+  · rw [heq] at hfail ⊢
+    rcases deleteAt_cases os c f t with ⟨h0, _⟩ | ⟨_, _, h0 | h0⟩
+    · rw [h0]; rfl
+    · rw [h0] at hfail; simp at hfail
+    · rw [h0]; rfl
+  · rw [heq] at hfail ⊢
+    rcases store_cases os c f t (r.content.take r.size) with h0 | h0 | ⟨k, h0, _⟩ | ⟨h0, _⟩ | ⟨h0, _⟩
+    · rw [h0]; rfl
+    · rw [h0]
+      have := dirsAfter_made_undo (mkParents os c f t).2 [] (by simp)
+      simpa [made, undo] using this
+    · rw [h0]
+      exact dirsAfter_made_undo (mkParents os c f t).2 _ (by intro e he; simp at he; rcases he with rfl | rfl <;> rfl)
+    · rw [h0]
+      exact dirsAfter_made_undo (mkParents os c f t).2 _ (by intro e he; simp at he; rcases he with rfl | rfl | rfl <;> rfl)
     · rw [h0] at hfail; simp at hfail
 
 /-- a successful upload: afterwards the target holds exactly the declared bytes and every other
     path holds what it held before -/
-theorem success_upload (os : OS) (c : UCfg) (f : Faults) (r : UReq) (fs : Files)
-    (htmp : TempFree os c r fs) (hok : (handleUpload os c f r).1 = .s20) (hsz : r.size ≠ 0) :
+theorem success_upload (os : UOS) (c : UCfg) (f : Faults) (r : UReq) (fs : Files)
+    (hc : Consistent os fs) (hok : (handleUpload os c f r).1 = .s20) (hsz : r.size ≠ 0) :
     ∃ t, os.resolve (c.dir ++ r.comps) = some t ∧ inside c.dir t = true ∧ t ≠ c.dir ∧
       (applyAll fs (handleUpload os c f r).2).get t = some (r.content.take r.size) ∧
       ∀ p, p ≠ t → (applyAll fs (handleUpload os c f r).2).get p = fs.get p := by
@@ -196,13 +253,14 @@ theorem success_upload (os : OS) (c : UCfg) (f : Faults) (r : UReq) (fs : Files)
   · exact absurd hz hsz
   · refine ⟨t, hres, hin, hne, ?_⟩
     rw [heq] at hok ⊢
-    have hmk := mkParents_only_mkdir os c f t
-    have ht := htmp t hres
-    rcases store_cases os c f t (r.content.take r.size) with h0 | ⟨k, h0⟩ | h0 | h0
+    have hmk := made_dirOps os c f t
+    rcases store_cases os c f t (r.content.take r.size) with h0 | h0 | ⟨k, h0, _⟩ | ⟨h0, _⟩ | ⟨h0, hl⟩
     · rw [h0] at hok; simp at hok
     · rw [h0] at hok; simp at hok
     · rw [h0] at hok; simp at hok
-    · rw [h0, applyAll_append, applyAll_mkdirs fs _ hmk]
+    · rw [h0] at hok; simp at hok
+    · have ht := temp_free hc hl
+      rw [h0, applyAll_append, applyAll_dirOps fs _ hmk]
       simp only [applyAll, List.foldl_cons, List.foldl_nil, applyEffect, if_true, get_set_self]
       refine ⟨trivial, fun p hp => ?_⟩
       rw [get_set_other _ _ _ _ hp]
@@ -212,7 +270,7 @@ theorem success_upload (os : OS) (c : UCfg) (f : Faults) (r : UReq) (fs : Files)
 
 /-- a successful delete: the file the path resolves to (inside the upload directory, existing) is
     gone and every other path holds what it held before -/
-theorem success_delete (os : OS) (c : UCfg) (f : Faults) (r : UReq) (fs : Files)
+theorem success_delete (os : UOS) (c : UCfg) (f : Faults) (r : UReq) (fs : Files)
     (hok : (handleUpload os c f r).1 = .s20) (hsz : r.size = 0) :
     ∃ t, os.resolve (c.dir ++ r.comps) = some t ∧ inside c.dir t = true ∧ os.kind t ≠ .missing ∧
       (applyAll fs (handleUpload os c f r).2).get t = none ∧
@@ -238,29 +296,38 @@ def cfg : UCfg :=
     allowedTypes := some ["text/plain"]
     tokens := ["s3"]
     enableDelete := false
-    pid := "7"
+    tag := "7"
     hasNul := fun _ => false }
 /-- a tiny OS: `uploads` is a directory, `uploads/a` a file, `uploads/d` a directory, the link
-    `uploads/out` resolves to `/etc`; nothing else exists -/
-def os0 : OS where
+    `uploads/out` resolves to `/etc`, `uploads/taken/.7.upload` is some entry; nothing else exists -/
+def os0 : UOS where
   resolve := fun p => if p = ["uploads", "out", "x"] then some ["etc", "x"] else some p
-  kind := fun p => if p = ["uploads"] ∨ p = ["uploads", "d"] then .dir else if p = ["uploads", "a"] then .file else .missing
+  kind := fun p => if p = ["uploads"] ∨ p = ["uploads", "d"] ∨ p = ["uploads", "taken"] then .dir
+    else if p = ["uploads", "a"] then .file else .missing
   size := fun _ => 0
   readText := fun _ => .ioError
   listing := fun _ => none
+  lexists := fun p => p = ["uploads"] ∨ p = ["uploads", "d"] ∨ p = ["uploads", "a"] ∨ p = ["uploads", "out"] ∨
+    p = ["uploads", "taken"] ∨ p = ["uploads", "taken", ".7.upload"]
 def req (comps : List Name) (size : Nat) (tok : Option String) : UReq :=
   { comps := comps, size := size, mime := "text/plain", token := tok, content := [1, 2, 3, 4, 5] }
 
 -- success: temp file written with exactly `size` bytes, renamed onto the target
 example : handleUpload os0 cfg {} (req ["new", "f"] 3 (some "s3")) =
-    (.s20, [.mkdir ["uploads", "new"], .writeTemp ["uploads", "new", ".f.7.upload"] [1, 2, 3] true,
-            .rename ["uploads", "new", ".f.7.upload"] ["uploads", "new", "f"] true]) := by decide +kernel
+    (.s20, [.mkdir ["uploads", "new"], .writeTemp ["uploads", "new", ".7.upload"] [1, 2, 3] true,
+            .rename ["uploads", "new", ".7.upload"] ["uploads", "new", "f"] true]) := by decide +kernel
 example : (applyAll [(["uploads", "a"], [9])] (handleUpload os0 cfg {} (req ["a"] 3 (some "s3"))).2).get ["uploads", "a"] = some [1, 2, 3] := by
   decide +kernel
--- a write that fails after one byte leaves the existing file alone
+-- a write that fails after one byte leaves the existing file alone and removes what it created
 example : (handleUpload os0 cfg { writeFailAfter := some 1 } (req ["a"] 3 (some "s3"))).1 = .s40 := by decide +kernel
 example : (applyAll [(["uploads", "a"], [9])] (handleUpload os0 cfg { writeFailAfter := some 1 } (req ["a"] 3 (some "s3"))).2).get ["uploads", "a"] = some [9] := by
   decide +kernel
+example : handleUpload os0 cfg { writeFailAfter := some 1 } (req ["n1", "n2", "f"] 3 (some "s3")) =
+    (.s40, [.mkdir ["uploads", "n1"], .mkdir ["uploads", "n1", "n2"], .writeTemp ["uploads", "n1", "n2", ".7.upload"] [1] false,
+            .unlink ["uploads", "n1", "n2", ".7.upload"] true, .rmdir ["uploads", "n1", "n2"], .rmdir ["uploads", "n1"]]) := by decide +kernel
+example : dirsAfter [] (handleUpload os0 cfg { mkdirFailAt := some 1 } (req ["n1", "n2", "f"] 3 (some "s3"))).2 = [] := by decide +kernel
+-- an entry that already carries the temporary name is never opened
+example : handleUpload os0 cfg {} (req ["taken", "f"] 3 (some "s3")) = (.s40, []) := by decide +kernel
 -- guards: wrong token, empty token, no token, oversize, type, delete disabled, outside link, the root itself, a directory
 example : handleUpload os0 cfg {} (req ["a"] 3 (some "bad")) = (.s60, []) := by decide +kernel
 example : handleUpload os0 { cfg with tokens := ["", "s3"] } {} (req ["a"] 3 (some "")) = (.s60, []) := by decide +kernel
